@@ -18,7 +18,8 @@ RULE = (
 ASSUMPTIONS = ["operations inserted with insert_at are not wired to classical registers (only add does that); the statement asks for "
                "quantum wires only, classical wires must merely stay single paths",
                "group_one_qubit_gates groups unitary one-qubit gates; a Z-measurement ends a run"]
-REQUIRED_CLASSES = {"history": ["insert", "insert2", "remove", "replace", "group", "unwrap", "rmid", "copy", "addreg", "register_adding_add", "edges_ordered_through_classical_wire_only"]}
+REQUIRED_CLASSES = {"history": ["insert", "insert2", "remove", "replace", "group", "unwrap", "rmid", "copy", "addreg", "register_adding_add", "edges_ordered_through_classical_wire_only", "user_label",
+                                "same_class_replace_changes_label"]}
 
 UNITARY1 = set(gc.ONE) | {"W"}
 
@@ -32,6 +33,7 @@ class Model:
                 self.wire[(t, r)] = []
         self.desc = {}  # node id -> op descriptor
         self.cwired = {}  # node id -> bool
+        self.fixed = {}  # node id -> bool: carries the user label "Fixed" (only nodes whose status is known)
 
     def add_reg(self, t):
         self.wire[(t, self.n[t])] = []
@@ -146,6 +148,22 @@ def verify(circ, M, sub, site, step):
             want_index.setdefault(lab, set()).add(nid)
     want_index["Input"] = set(io_in)
     want_index["Output"] = set(io_out)
+    # user labels (the solvers' "Fixed"): the index lists exactly the nodes whose operation carries the label
+    listed_fixed = list(circ.node_dict.get("Fixed", []))
+    if len(listed_fixed) != len(set(listed_fixed)):
+        bad("node-dict", "label Fixed lists a node twice: %s" % (listed_fixed,))
+    for nid in listed_fixed:
+        if nid not in circ.dag.nodes:
+            bad("node-dict", "label Fixed lists node %s, which is not in the graph" % (nid,))
+    for nid, flag in M.fixed.items():
+        if nid not in M.desc:
+            continue
+        on_op = "Fixed" in circ.dag.nodes[nid]["op"].labels
+        if on_op != flag:
+            bad("node-dict", "operation at node %s %s the label Fixed it was %s" % (nid, "carries" if on_op else "lost", "not given" if on_op else "given"))
+        if (nid in listed_fixed) != flag:
+            bad("node-dict", "label Fixed: node %s is %s although its operation %s the label" % (
+                nid, "listed" if nid in listed_fixed else "not listed", "carries" if flag else "does not carry"))
     for lab, ids in circ.node_dict.items():
         if lab == "Fixed":
             continue
@@ -196,6 +214,10 @@ def verify(circ, M, sub, site, step):
         circ.validate()
     except Exception as e:
         bad("validate", "validate() raised %r" % (e,))
+
+
+def type_name(d):
+    return "W" if d[0] == "W" else d[0]
 
 
 def classical_only_order(M, e1, q2):
@@ -250,7 +272,7 @@ def check_history(case, sub="history"):
             raise Violation(sub, "node-count", "edit", "plain", "edit created %d nodes" % len(new))
         return new[0]
 
-    def do_add(d):
+    def do_add(d, flag=False):
         for t, r in gc.qregs(d):
             if r > M.n[t]:
                 return False
@@ -269,7 +291,10 @@ def check_history(case, sub="history"):
         if any(r >= M.n[t] for t, r in gc.qregs(d)) or any(c >= M.n["c"] for c in gc.cregs(d)):
             cl.add("register_adding_add")
         before = set(circ.dag.nodes)
-        guarded(sub, "plain", circ.add, gc.make_op(d))
+        o = gc.make_op(d)
+        if flag:
+            o.add_labels("Fixed")
+        guarded(sub, "plain", circ.add, o)
         for c in gc.cregs(d):
             M.ensure("c", c)
         for t, r in gc.qregs(d):
@@ -280,6 +305,7 @@ def check_history(case, sub="history"):
         nid = nid[0]
         M.desc[nid] = d
         M.cwired[nid] = True
+        M.fixed[nid] = flag
         for q in gc.qregs(d):
             M.wire[q].append(nid)
         for c in gc.cregs(d):
@@ -302,11 +328,24 @@ def check_history(case, sub="history"):
             steps.append(["insert", [gate, tb, rb, ta, ra] if flip else [gate, ta, ra, tb, rb], i, j])
         else:
             steps.append(step)
+    def mk(d, flag):
+        o = gc.make_op(d)
+        if flag:
+            o.add_labels("Fixed")
+        return o
+
     for step in steps:
         op = step[0]
+        flag = False
+        if op in ("add_f", "insert_f", "replace_f"):
+            flag = True
+            op = op[:-2]
+            cl.add("user_label")
         site = op
+        known = {k: id(v) for k, v in M.desc.items()}
+        known_fixed = dict(M.fixed)
         if op == "add":
-            if not do_add(step[1]):
+            if not do_add(step[1], flag):
                 continue
         elif op == "insert":
             d = step[1]
@@ -339,10 +378,11 @@ def check_history(case, sub="history"):
                 poss.append(i2)
                 cl.add("insert2")
             before = set(circ.dag.nodes)
-            guarded(sub, "plain", circ.insert_at, gc.make_op(d), edges)
+            guarded(sub, "plain", circ.insert_at, mk(d, flag), edges)
             nid = new_node(before)
             M.desc[nid] = d
             M.cwired[nid] = False
+            M.fixed[nid] = flag
             for q, i in zip(qs, poss):
                 M.wire[q].insert(i, nid)
             cl.add("insert")
@@ -378,8 +418,11 @@ def check_history(case, sub="history"):
                 nd = [gc.CC[step[3] % 3]] + d[1:]
             else:
                 continue
-            guarded(sub, "plain", circ.replace_op, nid, gc.make_op(nd))
+            guarded(sub, "plain", circ.replace_op, nid, mk(nd, flag))
             M.desc[nid] = nd
+            M.fixed[nid] = flag
+            if flag != known_fixed.get(nid, flag) and type_name(nd) == type_name(d):
+                cl.add("same_class_replace_changes_label")
             cl.add("replace")
             site = "replace_op"
         elif op == "unwrap":
@@ -504,6 +547,8 @@ def check_history(case, sub="history"):
             continue
         else:
             raise ValueError(op)
+        # nodes that an edit removed or rebuilt (unwrap, group, identity removal) have no known label status any more
+        M.fixed = {k: v for k, v in M.fixed.items() if k in M.desc and (k not in known or known[k] == id(M.desc[k]) or op in ("add", "insert", "replace"))}
         verify(circ, M, sub, site, step)
     return Info(nontrivial=nontrivial, classes=sorted(cl))
 
@@ -539,7 +584,11 @@ def st_edit(max_reg=3):
         st.tuples(st.just("cpair"), st.sampled_from("ep"), st.integers(0, max_reg - 1), st.sampled_from("ep"), st.integers(0, max_reg - 1),
                   st.integers(0, 1), st.lists(st.sampled_from(["MZ", "MZ"] + gc.CC), min_size=2, max_size=2), st.sampled_from(gc.TWO), i, i,
                   st.booleans()),
+        st.tuples(st.just("add_f"), opd(False)),
+        st.tuples(st.just("insert_f"), opd(False), i, i),
+        st.tuples(st.just("replace_f"), i, one, i),
         st.tuples(st.just("remove"), i),
+        st.tuples(st.just("replace"), i, one, i),
         st.tuples(st.just("replace"), i, one, i),
         st.tuples(st.just("unwrap")),
         st.tuples(st.just("group")),
